@@ -734,3 +734,117 @@ def concat_many(ex, st, lst, e):
 
 
 N.SPECIAL['concat-many'] = concat_many
+
+
+# ------------------------------------------------------------- Series.apply / zip / dict(zip)
+LLV = ListT(LV)
+TSER = RecT('TSeries', (('vals', LLV), ('index', LV)))            # a Series of token lists
+tok_list = z3.Function('tok_list', z3.BoolSort(), sort_of(LV), sort_of(LLV))    # [tokenize(v) for v in vals]
+sel_vals = z3.Function('sel_vals', sort_of(LV), sort_of(LB), sort_of(LV))       # vals[mask]
+
+
+def m_apply(ex, st, recv, args, kw, e):
+    """Series.apply(tokenizer.tokenize): elementwise, same index; tokenizing a missing value raises"""
+    f = args[0] if args else None
+    if not (is_ser(recv) and f is not None and isinstance(f.ty, FuncT) and isinstance(f.t, tuple)
+            and f.t[0] == 'bound' and f.t[2] == 'tokenize'):
+        raise Undecided('Series.apply of something else than tokenizer.tokenize (line %d)' % e.lineno)
+    tok = f.t[1]
+    rs = st.heap[tok.t]['return_set'].t
+    vals = rec_field(recv, 'vals')
+    n = L_len(LV, vals.t)
+    j = z3.Int('j!apply')
+    ex.oblige(st, 'safety', 'apply-tokenize-values-present',
+              z3.ForAll([j], z3.Implies(z3.And(j >= 0, j < n), z3.Not(N.val_isnull(L_get(LV, vals.t, j)))),
+                        patterns=[L_get(LV, vals.t, j)]), e)
+    out = tok_list(rs, vals.t)
+    from . import spec as S_
+    st.assume(L_len(LLV, out) == n)
+    st.assume(z3.ForAll([j], z3.Implies(z3.And(j >= 0, j < n),
+                                        L_get(LLV, out, j) == S_.toks(rs, L_get(LV, vals.t, j))),
+                        patterns=[L_get(LLV, out, j)]))
+    note(ex, 'Series.apply(f) is [f(v) for v in values], same index')
+    ex.assumed_log.append('py_stringmatching.tokenizer.tokenizer.Tokenizer.tokenize {default} [assumed]')
+    return V(TSER, R_mk(TSER, vals=out, index=R_get(SER, recv.t, 'index')))
+
+
+def m_series_dropna(ex, st, recv, args, kw, e):
+    """Series.dropna(): the non-null values in order, with their index labels"""
+    vals, index = rec_field(recv, 'vals'), rec_field(recv, 'index')
+    mask = isnull_of(ex, st, recv, True, e)
+    mk = R_get(BSER, mask.t, 'vals')
+    nv, ni = sel_vals(vals.t, mk), sel_index(index.t, mk)
+    n, m = L_len(LV, vals.t), L_len(LV, nv)
+    src = lambda q: sel_src(mk, q)
+    dst = lambda q: sel_dst(mk, q)
+    keep = lambda q: L_get(LB, mk, q)
+    p, p2, j = z3.Ints('p!sd p2!sd j!sd')
+    for f in [z3.And(m >= 0, m <= n, L_len(LV, ni) == m),
+              z3.ForAll([p], z3.Implies(z3.And(p >= 0, p < m), z3.And(
+                  src(p) >= 0, src(p) < n, keep(src(p)), dst(src(p)) == p,
+                  L_get(LV, nv, p) == L_get(LV, vals.t, src(p)),
+                  L_get(LV, ni, p) == L_get(LV, index.t, src(p)))), patterns=[src(p), L_get(LV, nv, p)]),
+              z3.ForAll([p, p2], z3.Implies(z3.And(p >= 0, p < p2, p2 < m), src(p) < src(p2)),
+                        patterns=[z3.MultiPattern(src(p), src(p2))]),
+              z3.ForAll([j], z3.Implies(z3.And(j >= 0, j < n, keep(j)), z3.And(
+                  dst(j) >= 0, dst(j) < m, src(dst(j)) == j)), patterns=[dst(j)])]:
+        st.assume(f)
+    note(ex, 'Series.dropna() keeps exactly the non-null values, in order, with their index labels')
+    return V(SER, R_mk(SER, vals=nv, dtype=R_get(SER, recv.t, 'dtype'), index=ni))
+
+
+_df_dropna = m_dropna
+
+
+def m_dropna_any(ex, st, recv, args, kw, e):
+    if is_ser(recv):
+        return m_series_dropna(ex, st, recv, args, kw, e)
+    return _df_dropna(ex, st, recv, args, kw, e)
+
+
+def _seq_of(v, e):
+    """(list type, list term) of a zip operand"""
+    if is_ser(v):
+        return LV, R_get(SER, v.t, 'vals')
+    if isinstance(v.ty, RecT) and v.ty.name == 'TSeries':
+        return LLV, R_get(TSER, v.t, 'vals')
+    if isinstance(v.ty, ListT) and v.t is not None:
+        return v.ty, v.t
+    raise Undecided('zip() of %r (line %d)' % (v.ty, e.lineno))
+
+
+def b_zip(ex, st, args, kw, e):
+    if len(args) != 2:
+        raise Undecided('zip() with %d arguments (line %d)' % (len(args), e.lineno))
+    return V(FUNC, ('zip', _seq_of(args[0], e), _seq_of(args[1], e)))
+
+
+def b_dict(ex, st, args, kw, e):
+    """dict(zip(keys, values)): pairs up to the shorter length, a later pair overrides an earlier one"""
+    if len(args) != 1 or not (isinstance(args[0].ty, FuncT) and isinstance(args[0].t, tuple) and args[0].t[0] == 'zip'):
+        raise Undecided('dict() of something else than zip(a, b) (line %d)' % e.lineno)
+    (kt, ks), (vt, vs) = args[0].t[1], args[0].t[2]
+    dt = DictT(kt.elem, vt.elem)
+    d = fresh_assumed(ex, st, dt, 'zipdict')
+    nk, nv = L_len(kt, ks), L_len(vt, vs)
+    n = z3.If(nk <= nv, nk, nv)
+    last = z3.Function(fresh_name('ziplast'), I, I)
+    wit = z3.Function(fresh_name('zipwit'), sort_of(kt.elem), I)
+    j, j2 = z3.Ints('j!zd j2!zd')
+    k = z3.Const('k!zd', sort_of(kt.elem))
+    key = lambda q: L_get(kt, ks, q)
+    st.assume(z3.ForAll([j], z3.Implies(z3.And(j >= 0, j < n), z3.And(
+        D_has(dt, d.t, key(j)), last(j) >= j, last(j) < n, key(last(j)) == key(j),
+        D_get(dt, d.t, key(j)) == L_get(vt, vs, last(j)))), patterns=[key(j)]))
+    st.assume(z3.ForAll([j, j2], z3.Implies(z3.And(j >= 0, j < n, j2 > last(j), j2 < n), key(j2) != key(j)),
+                        patterns=[z3.MultiPattern(last(j), key(j2))]))
+    st.assume(z3.ForAll([k], z3.Implies(D_has(dt, d.t, k), z3.And(wit(k) >= 0, wit(k) < n, key(wit(k)) == k)),
+                        patterns=[D_has(dt, d.t, k)]))
+    note(ex, 'dict(zip(a, b)) pairs a[j] with b[j] for j < min(len a, len b); the last pair of a repeated key wins')
+    return d
+
+
+N.METHODS['apply'] = m_apply
+N.METHODS['dropna'] = m_dropna_any
+N.BUILTINS['zip'] = b_zip
+N.BUILTINS['dict'] = b_dict
